@@ -184,6 +184,11 @@ func readOnlyOp(c *sim.Ctx, p mq.Packet, k int) string {
 		c11LastBytes = w.out
 		return "WriteTo(re-entrant writer)"
 	case 0:
+		if c.T.Bool(1, 3) {
+			// the writer is a network connection (a net.Conn), as in most programs
+			sim.Guard(func() { p.WriteTo(&connWriter{}) })
+			return "WriteTo(net.Conn)"
+		}
 		encodeReal(p)
 		return "WriteTo"
 	case 1:
